@@ -3609,11 +3609,12 @@ static Token *global_variable(Token *tok, Type *basety, VarAttr *attr) {
     if (!ty->name)
       error_tok(ty->name_pos, "variable name omitted");
 
-    // Two initialized definitions of the same object would only be
-    // caught by the assembler.
-    if (equal(tok, "=") && scope->next == NULL)
+    // Two definitions of the same object (initialized, or thread-local,
+    // which is never tentative here) would only be caught by the
+    // assembler.
+    if ((equal(tok, "=") || (attr->is_tls && !attr->is_extern)) && scope->next == NULL)
       for (Obj *prev = globals; prev; prev = prev->next)
-        if (!prev->is_function && prev->init_data && !prev->enclosing_fn &&
+        if (!prev->is_function && prev->is_definition && !prev->is_tentative && !prev->enclosing_fn &&
             ty->name->len == strlen(prev->name) && !strncmp(ty->name->loc, prev->name, ty->name->len))
           error_tok(ty->name, "redefinition of '%s'", prev->name);
 
